@@ -216,16 +216,18 @@ P("C28", "exploration",
 P("C29", "exploration",
   "case = daemon state with 0..40 chunks, 0..4 advertised endpoints, 0..3 bootstrap nodes, 0..3 warnings; the repository's own ControlClient sends LIST / DEFAULTS / STATUS / DIAGNOSTICS / STORE / FETCH to the in-process server; "
   "every value the daemon produced is recomputed from node state and must equal what the client parsed (multi-line values compared line by line), payload bytes equal; distinct = (chunks, endpoints, bootstrap nodes, warnings)",
-  [H("main", "h_control", 200, 20000, hprop="C29")], [A_SAN, A_VCLK, "the black-box `eph list` run is part of the CLI driver (thorough)"],
-  {"fields.compared": 3000, "commands.LIST": 200, "list.entries-expected": 300})
+  [H("main", "h_control", 200, 20000, hprop="C29"), dict(name="eph-list", py=lambda ctx: drv_cli.c29_list(ctx), targets=["ephemeralnet", "ephemeralnet_relay", "mtool"])],
+  [A_SAN, A_VCLK, "part eph-list: real `eph serve` + `eph store` x N + `eph list`, N ids must be printed"],
+  {"fields.compared": 3000, "commands.LIST": 200, "list.entries-expected": 300, "list.cli-runs": 2})
 
 P("C35", "exploration",
   "part control: 8 hostile connections per case to the in-process ControlServer (header without colon, 16 KiB+ lines, no newline at all, PAYLOAD-LENGTH variants, empty / huge / unwritable OUT:, garbage manifests, unknown commands, binary, truncated payloads, 2000 headers, CRLF), client closing with or without reading the reply, SIGPIPE left at its default as in `eph serve`; "
   "after every hostile connection an honest PING must be answered; part transport (h_transport): raw TCP peer before and after a genuine handshake; any sanitizer report, terminate or fatal signal is a violation; distinct = hostile-kind sequence",
-  [H("control", "h_control", 400, 60000, hprop="C35c"), H("transport", "h_transport", 120, 20000, hprop="C35t", qworkers=8)],
+  [H("control", "h_control", 400, 60000, hprop="C35c"), H("transport", "h_transport", 120, 20000, hprop="C35t", qworkers=8),
+   dict(name="daemon", py=lambda ctx: drv_cli.c35_daemon(ctx), targets=["ephemeralnet", "ephemeralnet_relay", "mtool"])],
   [A_SAN, "bounded progress: an honest client / peer must be served within the watchdog (25 s / 20 s) while a silent or half-sent connection is open"],
   {"control.hostile-connections": 3000, "control.honest-pings-served": 3000, "control.stall-probes": 2, "transport.post-handshake-hostile-messages": 800, "transport.adversarial-manifest-then-chunk": 200,
-   "transport.honest-handshakes-served": 200, "transport.stall-probes": 2})
+   "transport.honest-handshakes-served": 200, "transport.stall-probes": 2, "daemon.runs": 1, "daemon.hostile-connections": 20})
 
 P("C14", "exploration",
   "case%3: (0) two real nodes over loopback, burst of 1..200 messages of sizes 0/1/63/64/65/.../3000; (1) messages around the limit: 1 MiB-1, exactly 1 MiB (must arrive), 1 MiB+1 and 2 MiB (send must fail, nothing may arrive); receiver handler log compared with the sender log (count, order, SHA-256, length); "
@@ -248,6 +250,28 @@ P("C36", "exploration",
   [H("main", "h_race", 8, 240, flavour="tsan", qworkers=8, tworkers=8, post=post_race.post_c36, params={"run_ms": 1500})],
   ["ThreadSanitizer (g++ -fsanitize=thread) sees only the interleavings that occurred and only synchronisation it intercepts", "the daemon shape (who takes node_mutex) is copied from src/main.cpp by hand"],
   {"race.repetitions": 5, "race.overlap.tick-x-peer": 20, "race.overlap.control-x-peer": 20, "race.peer-ops": 100, "race.control-ops": 60})
+
+import drv_cli  # noqa: E402
+
+CLI_TARGETS = ["ephemeralnet", "ephemeralnet_relay", "mtool"]
+
+P("C30", "exploration",
+  "case = one black-box run of the sanitizer-built `eph fetch` where exactly one discovery path exists (control hint, control:// fallback, local daemon via --control-port, transport hint to a real Node whose stored ciphertext was overwritten; relay hint in the thorough tier) "
+  "and the endpoint on that path answers {the payload, truncated, extended, other bytes of equal length, empty, ciphertext of another payload}; oracle: an output file exists => sha256(file) == manifest content hash; honest bytes must produce the file (non-vacuity); distinct = (path, response, size, outcome)",
+  [dict(name="cli", py=drv_cli.c30, targets=CLI_TARGETS)], [A_SAN, "scripted control endpoints are operated by the harness; lying peers are real Nodes (mtool liar)"],
+  {"fetch.runs": 20, "fetch.honest-successes": 4, "fetch.dishonest-runs": 15})
+
+P("C31", "exploration",
+  "part cli: black-box `eph fetch <manifest with hostile filename metadata>` into a directory (new directory with trailing slash / existing directory / --fetch-default-dir) with the cwd inside a sandbox; the whole sandbox tree is diffed: exactly one new regular file, a direct child of the chosen directory, "
+  "name without separators / control / reserved characters and not . or ..; part node: Node::store_chunk with the same name generator: the recorded manifest filename obeys the same predicate or is absent; distinct = (name, mode)",
+  [dict(name="cli", py=drv_cli.c31, targets=CLI_TARGETS), H("node", "h_node2", 1500, 150000, hprop="C31n")], [A_SAN],
+  {"names.cli-runs": 50, "names.hostile-metadata-neutralised": 25, "names.stores": 20000, "names.recorded": 5000})
+
+P("C32", "exploration",
+  "case = one generated configuration: for 14 observable settings a random subset of {flag, environment overlay, selected profile, parent, grand-parent} sets it with layer-specific, mutually valid values; YAML or JSON; profile chosen by --profile or by the environment; `eph ... serve` is started on free ports and DEFAULTS (plus a STORE for the token) is read; "
+  "expected = value of the highest-precedence layer that sets it, else the built-in default; every 5th case is a broken graph (cycle, self-cycle, missing parent / profile / environment): the process must exit non-zero with E_CONFIG_* within 20 s; distinct = (assignment, depth, env, format)",
+  [dict(name="cli", py=drv_cli.c32, targets=CLI_TARGETS)], [A_SAN, "alias spellings of one setting are not mixed across layers"],
+  {"config.daemons-probed": 25, "config.settings-compared": 300, "config.error-cases": 5})
 
 NOT_APPLICABLE = {}
 HOOK_COMMITS = []
